@@ -24,7 +24,7 @@ SRC = "/repo/src/chmpy"
 
 def functions_of(pid):
     ev = json.load(open(os.path.join(HERE, "evidence", f"{pid}.json")))
-    generic = {f"R{pid[1:]}.{k}" for k in (9, 12, 13, 19, 20)}
+    generic = {f"R{pid[1:]}.{k}" for k in (9, 12, 13, 18, 19, 20)}
     out = {}
     for s, rules in ev["coverage"].get("obligation_sites", {}).items():
         if not (set(rules) - generic):
